@@ -11,5 +11,5 @@ trap 'git -C /repo checkout -- . ; /venv/bin/python /verif/tools/extract.py >/de
 echo "== test-suite with the change"; (cd /repo && /venv/bin/python -m pytest -q -p no:cacheprovider 2>&1 | tail -1)
 echo "== demo with the change"; (cd /repo && PYTHONPATH=/repo /venv/bin/python /verif/$SEED/demo.py >/dev/null 2>&1; echo "   demo rc=$? (want non-zero)")
 for P in "$@"; do
-  echo "== check $P"; ./check $P 2>&1 | cut -c1-600 | head -8; echo "   rc=${PIPESTATUS[0]}"
+  echo "== check $P"; VERIF_EVIDENCE_DIR=/verif/replays/seed-evidence ./check $P 2>&1 | cut -c1-600 | head -8; echo "   rc=${PIPESTATUS[0]}"
 done
